@@ -51,9 +51,23 @@ func RunJobs(id string, jobs []Job) { runJobs(id, jobs, false) }
 // RunJobsAll runs every job in every worker (for jobs that shard their own tree).
 func RunJobsAll(id string, jobs []Job) { runJobs(id, jobs, true) }
 
+// RunJobsAllInfo is RunJobsAll with extra information for the evidence (e.g. what the model checker reported).
+func RunJobsAllInfo(id string, jobs []Job, info map[string]interface{}) {
+	extraInfo = info
+	runJobs(id, jobs, true)
+}
+
+var extraInfo map[string]interface{}
+
+// OnExit functions run after the result has been written, before the worker exits (clean-up of servers, temp dirs).
+var OnExit []func()
+
 func runJobs(id string, jobs []Job, all bool) {
 	env := GetEnv()
 	res := NewResult(id)
+	for k, v := range extraInfo {
+		res.Info[k] = v
+	}
 	defer func() {
 		if p := recover(); p != nil {
 			if ee, ok := p.(*EngineError); ok {
@@ -111,6 +125,9 @@ func runJobs(id string, jobs []Job, all bool) {
 	}
 	res.Info["jobs_total"] = len(jobs)
 	res.Write(env)
+	for _, f := range OnExit {
+		f()
+	}
 	if env.Out != "" {
 		// harnesses running inside a synctest bubble leave blocked goroutines of the system under test
 		// behind; the bubble would panic on exit.  The result is on disk: end the worker here.
